@@ -131,6 +131,7 @@ type c07Op struct {
 	Tamper string `json:"tamper"` // swap garbage foreign extend delete-cache
 	Store  string `json:"store"`  // primary | cache
 	Hours  int    `json:"hours"`  // age: the stored record gets this much older
+	Fast   bool   `json:"fast"`   // outage: the primary refuses at once instead of hanging
 }
 
 type c07Case struct {
@@ -138,6 +139,9 @@ type c07Case struct {
 	// NoNorm: user names are not normalised (disable_username_normalization):
 	// the upper-case spelling is then a DIFFERENT identity, unknown to the directory
 	NoNorm bool `json:"no_norm"`
+	// FastOutages: an unreachable primary store refuses at once (connection
+	// refused) instead of letting reads hang until the server's patience ends
+	FastOutages bool `json:"fast_outages"`
 }
 
 var c07Users = []string{"una", "dos"}
@@ -200,6 +204,7 @@ func c07Gen(t *rapid.T) c07Case {
 		return nil
 	}
 	c.NoNorm = rapid.IntRange(0, 3).Draw(t, "nonorm") == 0
+	c.FastOutages = rapid.IntRange(0, 2).Draw(t, "fastOutages") == 0
 	switch rapid.IntRange(0, 9).Draw(t, "motif") {
 	case 6: // logins during an outage do not extend the life of the directory-confirmed record
 		c.Ops = append(c.Ops, up...)
@@ -381,6 +386,12 @@ func c07Check(c c07Case) *vResult {
 			}
 		case "outage":
 			outage = op.On
+			if outage {
+				w.vPrimaryOutageFlavour(op.Fast || c.FastOutages)
+				if op.Fast || c.FastOutages {
+					res.label("outage:fast-fail")
+				}
+			}
 			w.vPrimaryOutage(outage)
 		case "tamper":
 			db := w.vRawPrimary()
